@@ -197,6 +197,11 @@ def s_from_bool(ip, st, fr, name, args, c, site):
     return [([b], lambda *x: I(1)), ([T.mk_not(b)], lambda *x: I(0))]
 
 
+@S('std::ops::RangeInclusive::<Idx>::new')
+def s_range_inclusive_new(ip, st, fr, name, args, c, site):
+    return one(X.Adt('std::ops::RangeInclusive', 'RangeInclusive', 0, [args[0], args[1], FALSE], False))
+
+
 @S('std::ops::Range::<Idx>::contains', 'std::ops::RangeInclusive::<Idx>::contains', 'std::ops::RangeFrom::<Idx>::contains', 'std::ops::RangeTo::<Idx>::contains',
    'std::ops::RangeToInclusive::<Idx>::contains')
 def s_range_contains(ip, st, fr, name, args, c, site):
